@@ -36,24 +36,34 @@ func runC17Finite(c *Ctx) {
 		return
 	}
 	fn := FuncName(f)
-	in := f.Params[0]
-	// usesPow10: the function scales by math.Pow10 of a non-constant
+	// usesPow10: the function (or a helper introduced after the baseline that
+	// it calls) scales by math.Pow10 of a non-constant
 	usesPow := false
-	eachCall(f, func(call ssa.CallInstruction) {
-		if calleeName(call) == "math.Pow10" {
-			if _, isC := constInt(call.Common().Args[0]); !isC {
-				usesPow = true
+	var scanPow func(g *ssa.Function, depth int)
+	scanPow = func(g *ssa.Function, depth int) {
+		eachCall(g, func(call ssa.CallInstruction) {
+			if calleeName(call) == "math.Pow10" {
+				if _, isC := constInt(call.Common().Args[0]); !isC {
+					usesPow = true
+				}
 			}
-		}
-	})
+			if h := staticCallee(call); h != nil && h != g && isNewHelper(h) && depth < 3 {
+				scanPow(h, depth+1)
+			}
+		})
+	}
+	scanPow(f, 0)
 	if !usesPow {
 		c.Errorf("snapToGridFloat64 no longer scales by math.Pow10(non-constant); rule needs review")
 	}
-	var check func(r *ssa.Return, v ssa.Value, depth int)
-	check = func(r *ssa.Return, v ssa.Value, depth int) {
+	// inputs: the values known to be the (finite) input ordinate in the function
+	// being examined — the first parameter of snapToGridFloat64 and, in a
+	// helper, the parameters that receive it
+	var check func(g *ssa.Function, inputs map[ssa.Value]bool, r *ssa.Return, v ssa.Value, depth, hdepth int)
+	check = func(g *ssa.Function, inputs map[ssa.Value]bool, r *ssa.Return, v ssa.Value, depth, hdepth int) {
 		if phi, ok := v.(*ssa.Phi); ok && depth < 3 && !finiteGuarded(r, v) {
 			for _, e := range phi.Edges {
-				check(r, e, depth+1)
+				check(g, inputs, r, e, depth+1, hdepth)
 			}
 			return
 		}
@@ -62,9 +72,12 @@ func runC17Finite(c *Ctx) {
 			p = "snapped value (phi of the scaled results)"
 		}
 		construct := "return " + p
+		if g != f {
+			construct = "return " + p + " in " + FuncName(g)
+		}
 		switch x := v.(type) {
 		case *ssa.Parameter:
-			if x == in {
+			if inputs[x] {
 				c.Triv(r.Pos(), fn, construct, "returns its input unaltered")
 				return
 			}
@@ -72,14 +85,28 @@ func runC17Finite(c *Ctx) {
 			c.Triv(r.Pos(), fn, construct, "constant")
 			return
 		case *ssa.Call:
-			if calleeName(x) == "math.Round" && x.Call.Args[0] == in {
+			if calleeName(x) == "math.Round" && inputs[x.Call.Args[0]] {
 				c.OK(r.Pos(), fn, construct, "math.Round of a finite value is finite")
+				return
+			}
+			// the result of a helper introduced after the baseline: its returns
+			// are judged in its own body, knowing which parameters are the input
+			if h := staticCallee(x); h != nil && isNewHelper(h) && h != g && hdepth < 3 && len(h.Blocks) > 0 && h.Signature.Results().Len() == 1 {
+				hin := map[ssa.Value]bool{}
+				for i, a := range x.Call.Args {
+					if inputs[a] && i < len(h.Params) {
+						hin[h.Params[i]] = true
+					}
+				}
+				for _, hr := range returnsOf(h) {
+					check(h, hin, hr, hr.Results[0], 0, hdepth+1)
+				}
 				return
 			}
 		}
 		notInf, notNaN := false, false
-		for _, g := range guardsAtBlock(r.Block()) {
-			if call, ok := g.Cond.(*ssa.Call); ok && !g.Truth {
+		for _, gd := range guardsAtBlock(r.Block()) {
+			if call, ok := gd.Cond.(*ssa.Call); ok && !gd.Truth {
 				switch calleeName(call) {
 				case "math.IsInf":
 					if call.Call.Args[0] == v {
@@ -104,7 +131,7 @@ func runC17Finite(c *Ctx) {
 		}
 	}
 	for _, r := range returnsOf(f) {
-		check(r, r.Results[0], 0)
+		check(f, map[ssa.Value]bool{f.Params[0]: true}, r, r.Results[0], 0, 0)
 	}
 }
 
